@@ -21,6 +21,7 @@ EXPLANATION = (
     "on the radix letters, on the digit function and on the first characters that force an integer (character predicates are evaluated as "
     "extracted decision structures over a finite character domain). R8 (TAB): the stdin reader's byte classifier, evaluated as a decision "
     "structure on every byte that occurs in valid UTF-8, equals the UTF-8 lead-byte table, so the two transports deliver the same characters."
+    " R5 also: the stdin reader answers None only with nothing collected and only behind the end-of-input edge; token separators are read without assertion code and character-class predicates are reported. R9: a label's offset is parsed with 'sign required' and parse_integer honours it. R10: the argument reader's byte cursor is advanced by byte quantities only. R11: the integer parser uses no wrapping/saturating/overflowing arithmetic. R12: TryParse implementations strip their sigil once (no trim_*_matches). R13: the integer parser and its pre-classifier single out no characters beyond sign, #, radix letters and 0."
 )
 NOT_DECIDED = "the value denoted by every spelling of an integer or label (a grammar-level, value-quantified matter); invalid UTF-8 on stdin (outside the quantifier: strings)"
 
